@@ -38,6 +38,25 @@ theorem dirfn_objective_feasible (obj : List ℝ → ℝ) (D : Deriv ℝ) (cap :
   | error e => obtain ⟨e1, df1⟩ := e; exact hJ.f_err df pl e1 df1 ⟨hQ, hT⟩ trivial h
   | ok r => obtain ⟨df1, v⟩ := r; exact hJ.f_ok df pl df1 v ⟨hQ, hT⟩ trivial h
 
+/-- **backtrack_auto_policy_feasible**: `NewtonBacktrackOneDimension` used as an optimiser in its own right
+(the quantifier lists it; inside the library it only ever runs on a `DirectionFunction`, which
+`dirfn_objective_feasible` covers) — `init` (one evaluation at the optimiser's list), any number of steps
+(each evaluates at the list moved by `setValue`; on giving up the function is put back with the list set
+to 0 by `setValue`) — on the objective of the harness: however the run ends, every evaluation was made at
+a feasible point and the reported parameter is feasible. -/
+theorem backtrack_auto_policy_feasible (obj : List ℝ → ℝ) (D : Deriv ℝ) (cap : Option Nat)
+    (params : PList ℝ) (s : St (Fn ℝ) (NBack ℝ) ℝ) (hpol : s.core.policy ≠ .ignore)
+    (hfeas : feasibleList params = true) (hnd : (params.map (·.name)).Nodup)
+    (hs0 : FeasFn (consOf params) s.fn) :
+    ROk (FeasFn (consOf params))
+      (fun s1 => Spec.feasibleLog (consOf params) s1.fn.log = true ∧ Spec.feasibleReport s1.core.params = true ∧
+        ∀ fuel', ROk (FeasFn (consOf params))
+          (fun r => Spec.feasibleLog (consOf params) r.1.fn.log = true ∧ Spec.feasibleReport r.1.core.params = true)
+          ((nbackAlgo (Fn.iface obj D cap)).optimize fuel' s1))
+      ((nbackAlgo (Fn.iface obj D cap)).init s params) :=
+  auto_policy_feasible (nbackAlgo (Fn.iface obj D cap)) params
+    (nback_safeAlgo' (objective_safe obj D cap (consOf params))) s hpol hfeas hnd hs0
+
 /-- **powell_auto_policy_feasible**: `PowellMultiDimensions` — `init` (one evaluation), any number of
 steps (a line minimisation and an evaluation per direction, the extrapolated point, possibly one more
 line minimisation), the final evaluation of its `optimize` — on the objective of the harness: however
